@@ -34,7 +34,7 @@ TNew == /\ l = 1 /\ Is("new") /\ Adv
         /\ UNCHANGED <<vars, oterm, oclock, sync>>
         /\ Check(tid, l, "H.cfg", "", /\ Len(cfg.values) >= 2
                                       /\ \A m \in Msgs : \A k \in 1..Len(m) : m[k] \notin {cfg.values[j] : j \in 1..Len(cfg.values)} \cup {" "}
-                                      /\ \A m \in Msgs : Len(m) + 3 < cfg.w
+                                      /\ \A m \in Msgs : Len(m) + 3 <= cfg.w        \* a frame may fill the row, it must not wrap
                                       /\ cfg.mode \in {"ansi", "plain", "quiet"})
 
 ModelCan(th) == (th = "M" /\ EnM) \/ (th = "S" /\ EnS) \/ th = "T"
